@@ -17,6 +17,10 @@ func RunC11(r *sim.Run) {
 	t := r.T
 	w := NewWorld(r, defaultOpts())
 	defer w.Stop()
+	if strings.Contains(r.Profile, "preempt") {
+		w.EnablePreemption(uint64(t.Draw(1 << 30)))
+		defer func() { r.ProbeN("preemptions_inside_gateway_code", w.Sc.Preempts) }()
+	}
 	certs := []*certSet{genCertSet("one"), genCertSet("two")}
 	namePool := []string{"One.Example", "two.example", "SHARED.example", "shared.example", "x.example"}
 	nCl := t.Range(1, 3)
